@@ -249,6 +249,25 @@ fn blobs(rng: &mut Rng, n: usize, p: usize, k: usize) -> (Array2<f64>, Array1<us
     (x, y)
 }
 
+/// run a fit on a helper thread and give up after `ms` (the argmin line search used by the GLM and
+/// logistic fits can spin forever on a non-finite cost; fitting is not C03's subject)
+fn with_timeout<T: Send + 'static>(ms: u64, f: impl FnOnce() -> T + Send + 'static) -> Option<T> {
+    let (tx, rx) = std::sync::mpsc::channel();
+    std::thread::spawn(move || {
+        let r = std::panic::catch_unwind(std::panic::AssertUnwindSafe(f));
+        if let Ok(v) = r {
+            let _ = tx.send(v);
+        }
+    });
+    rx.recv_timeout(std::time::Duration::from_millis(ms)).ok()
+}
+
+fn trace(what: &str) {
+    if std::env::var("VERIF_TRACE").is_ok() {
+        eprintln!("trace {}", what);
+    }
+}
+
 fn fail_fit(em: &mut Em, kind: &str) {
     em.count(&format!("fit_failed:{}", kind));
 }
@@ -275,6 +294,7 @@ fn one_round(em: &mut Em, rng: &mut Rng) {
     let bstr = a1(|x: &bool| V::D(x.to_string()));
     let prstr = a1(|x: &Pr| V::F(**x as f64));
 
+    trace("k-means");
     // k-means
     {
         use linfa_clustering::KMeans;
@@ -290,6 +310,7 @@ fn one_round(em: &mut Em, rng: &mut Rng) {
             Err(_) => fail_fit(em, "kmeans"),
         }
     }
+    trace("Gaussian mixture");
     // Gaussian mixture
     if p <= 4 {
         use linfa_clustering::GaussianMixtureModel;
@@ -313,19 +334,26 @@ fn one_round(em: &mut Em, rng: &mut Rng) {
             Err(_) => fail_fit(em, "gmm"),
         }
     }
+    trace("OLS");
     // OLS
     match linfa_linear::LinearRegression::new().with_intercept(rng.coin()).fit(&Dataset::new(x.clone(), yreg.clone())) {
         Ok(m) => sweep_model(em, rng, "ols", &m, &pool, &fstr, &NOMARGIN),
         Err(_) => fail_fit(em, "ols"),
     }
+    trace("Tweedie GLM");
     // Tweedie GLM (log link needs positive targets)
     {
-        let ypos = yreg.mapv(|v| (v / 8.0).exp().min(50.0) + 0.125);
-        match linfa_linear::TweedieRegressor::params().power(if rng.coin() { 1.0 } else { 0.0 }).alpha(0.125).max_iter(30).fit(&Dataset::new(x.clone(), ypos)) {
-            Ok(m) => sweep_model(em, rng, "glm", &m, &pool.mapv(|v| v / 4.0), &fstr, &NOMARGIN),
-            Err(_) => fail_fit(em, "glm"),
+        let ypos = yreg.mapv(|v| (v / 16.0).exp().min(8.0) + 0.125);
+        let xs = x.mapv(|v| v / 8.0);
+        let power = if rng.coin() { 1.0 } else { 0.0 };
+        let fitted = with_timeout(3000, move || linfa_linear::TweedieRegressor::params().power(power).alpha(0.125).max_iter(30).fit(&Dataset::new(xs, ypos)).ok());
+        match fitted {
+            Some(Some(m)) => sweep_model(em, rng, "glm", &m, &pool.mapv(|v| v / 8.0), &fstr, &NOMARGIN),
+            Some(None) => fail_fit(em, "glm"),
+            None => em.count("fit_timeout:glm"),
         }
     }
+    trace("isotonic");
     // isotonic (one feature)
     {
         let x1 = x.slice(s![.., 0..1]).to_owned();
@@ -334,6 +362,7 @@ fn one_round(em: &mut Em, rng: &mut Rng) {
             Err(_) => fail_fit(em, "isotonic"),
         }
     }
+    trace("elastic net");
     // elastic net, single and multi task
     match linfa_elasticnet::ElasticNet::params().penalty(0.125).l1_ratio(0.5).fit(&Dataset::new(x.clone(), yreg.clone())) {
         Ok(m) => sweep_model(em, rng, "elasticnet", &m, &pool, &fstr, &NOMARGIN),
@@ -358,13 +387,16 @@ fn one_round(em: &mut Em, rng: &mut Rng) {
             }
         }
     }
+    trace("PCA");
     // PCA
     match linfa_reduction::Pca::params(1 + rng.below(p)).whiten(rng.coin()).fit(&Dataset::from(x.clone())) {
         Ok(m) => sweep_model(em, rng, "pca", &m, &pool, &a2f, &NOMARGIN),
         Err(_) => fail_fit(em, "pca"),
     }
+    trace("logistic");
     // logistic, binary and multinomial
-    match linfa_logistic::LogisticRegression::default().max_iterations(40).fit(&Dataset::new(x.clone(), ybool.clone())) {
+    let (xc, yc) = (x.clone(), ybool.clone());
+    match with_timeout(3000, move || linfa_logistic::LogisticRegression::default().max_iterations(40).fit(&Dataset::new(xc, yc)).map_err(|_| ())).unwrap_or(Err(())) {
         Ok(m) => {
             let mm = m.clone();
             let margin = move |r: ArrayView1<f64>| (mm.predict_probabilities(&row2(r))[0] - 0.5).abs();
@@ -372,7 +404,8 @@ fn one_round(em: &mut Em, rng: &mut Rng) {
         }
         Err(_) => fail_fit(em, "logistic_binary"),
     }
-    match linfa_logistic::MultiLogisticRegression::default().max_iterations(40).fit(&Dataset::new(x.clone(), y.clone())) {
+    let (xc, yc) = (x.clone(), y.clone());
+    match with_timeout(3000, move || linfa_logistic::MultiLogisticRegression::default().max_iterations(40).fit(&Dataset::new(xc, yc)).map_err(|_| ())).unwrap_or(Err(())) {
         Ok(m) => {
             let mm = m.clone();
             let margin = move |r: ArrayView1<f64>| top2_gap(&mm.predict_probabilities(&row2(r)).row(0).to_vec());
@@ -380,6 +413,7 @@ fn one_round(em: &mut Em, rng: &mut Rng) {
         }
         Err(_) => fail_fit(em, "logistic_multinomial"),
     }
+    trace("SVM:");
     // SVM: classification (linear / gaussian), probability, regression, one-class
     {
         use linfa_svm::Svm;
@@ -416,11 +450,13 @@ fn one_round(em: &mut Em, rng: &mut Rng) {
             Err(_) => fail_fit(em, "svm_one_class"),
         }
     }
+    trace("decision tree");
     // decision tree: raw comparisons only, never a tie
     match linfa_trees::DecisionTree::params().max_depth(Some(1 + rng.below(4))).fit(&Dataset::new(x.clone(), y.clone())) {
         Ok(m) => sweep_model(em, rng, "decision_tree", &m, &pool, &ustr, &NOMARGIN),
         Err(_) => fail_fit(em, "decision_tree"),
     }
+    trace("naive Bayes");
     // naive Bayes (margins from the serialised class statistics)
     {
         match linfa_bayes::GaussianNb::params().fit(&Dataset::new(x.clone(), y.clone())) {
@@ -456,6 +492,7 @@ fn one_round(em: &mut Em, rng: &mut Rng) {
             Err(_) => fail_fit(em, "multinomial_nb"),
         }
     }
+    trace("FTRL");
     // FTRL
     {
         use linfa_ftrl::Ftrl;
@@ -477,6 +514,7 @@ fn one_round(em: &mut Em, rng: &mut Rng) {
             _ => fail_fit(em, "ftrl"),
         }
     }
+    trace("composing wrappers");
     // composing wrappers over real members
     {
         let m1 = linfa_linear::LinearRegression::new().fit(&Dataset::new(x.clone(), yreg.clone()));
